@@ -368,6 +368,15 @@ fn corpus(per_payload: usize, with_strings: bool, rng: &mut Rng) -> Vec<Prog> {
         }
     }
     v.extend(gen::sink());
+    // programs under OLD pragmas, so that the version-gated detectors (safe_math_pre_080, short_revert_string) are active too:
+    // SafeMath call sites, require messages below / above 32 bytes, and a message split into adjacent string literals
+    for (tag, header) in [("0.7.6", "pragma solidity 0.7.6;\n"), ("0.8.3", "pragma solidity 0.8.3;\n"), ("0.8.4", "pragma solidity 0.8.4;\n")] {
+        let src = format!(
+            "{}library SafeMath {{\n    function add(uint a, uint b) internal pure returns (uint) {{ return a + b; }}\n}}\ncontract O {{\n    using SafeMath for uint;\n    function f(uint a, uint b) public returns (uint) {{\n        require(a > b, \"aaaaaaaaaaaaaaaa\" \"bbbbbbbbbbbbbbbbb\");\n        require(a > b, \"cccccccccccccccccccccccccccccccccccc\");\n        require(a > b, \"dddddddddddddddddddddddddddddd\" \"ee\");\n        require(a > b, \"short\");\n        require(a > b, \"not enough \" \"collateral\");\n        return a.add(b);\n    }}\n}}\n",
+            header
+        );
+        v.push(Prog { src, tag: format!("version-gated@file:pragma-{}", tag) });
+    }
     // small programs first: the first witness kept per violation key is a small one
     v.sort_by(|a, b| (a.src.len(), &a.tag).cmp(&(b.src.len(), &b.tag)));
     v
@@ -985,6 +994,37 @@ pub fn run_c02(tier: &str, seed: u64) -> CheckResult {
         ("spec_line", J::Num(spec_line(6, "a\r\n\u{e9}\na") as i64)),
         ("get_line_number", J::s(format!("{:?}", real_line(6, "a\r\n\u{e9}\na")))),
     ]));
+
+    // (a3) texts of EQUAL LENGTH that share a long common head (and tail) and differ only in where their line feeds are, converted
+    // one after the other on ONE thread (a memo keyed by length / a prefix / a hash of the head would serve the wrong table)
+    {
+        let mut part = Part::default();
+        let heads = ["// SPDX-License-Identifier: MIT\npragma solidity 0.8.10;\n// a header of more than sixty-four bytes, shared by all\n".to_string(), "h".repeat(130), format!("{}\n{}", "x".repeat(70), "y".repeat(70))];
+        let mids = ["a\n\nb c", "a\nb\n c", "\na\nb c", "a b\n\nc", "a b c\n\n", "\n\na b c", "a\r\nb\nc", "a b c d"];
+        for head in &heads {
+            for round in 0..2 {
+                for (k, mid) in mids.iter().enumerate() {
+                    let mid = mids[(k + round * 3) % mids.len()];
+                    let _ = mid;
+                }
+                for k in 0..mids.len() {
+                    let mid = mids[(k * (round + 1) + round) % mids.len()];
+                    let text = format!("{}{}\ncontract Z {{ }}\n", head, mid);
+                    for off in head.len()..text.len() {
+                        if !admissible(&text, off) {
+                            continue;
+                        }
+                        part.evals += 1;
+                        part.nontrivial.push(format!("a3|{}|{}|{}", head.len(), mid.escape_debug(), off));
+                        if let Some(f) = line_case(&text, off) {
+                            line_violation(&mut part, &text, off, f);
+                        }
+                    }
+                }
+            }
+        }
+        merge(&mut r, vec![part], &mut tot);
+    }
 
     // (a2) seeded random longer texts
     let n_random: usize = if thorough { 100_000 } else { 6_000 };
